@@ -102,12 +102,14 @@ package token
 //@ func (FactoryUnexpectedFunction).Supports
 //@   property C03 C11 C15
 //@   ensures [iff] result <==> (len(expr) >= 2 && hasPrefix(expr, "%") && hasSuffix(expr, "%") && matches(substr(expr, 1, len(expr) - 2), regexSimpleFn))
-// a registered function claims only calls of its own name (the converse - every such call is claimed - needs uniqueness
-// of the regex decomposition, which no installed solver decides in time: not stated)
+// a registered function claims exactly the calls whose name - the text between the opening % and the first parenthesis -
+// is its own
 //@ func (*FactoryFunction).Supports
 //@   property C03 C15 C02
 //@   ensures [call_syntax_only] result ==> len(expr) >= 2 && hasPrefix(expr, "%") && hasSuffix(expr, "%") && matches(substr(expr, 1, len(expr) - 2), regexSimpleFn)
 //@   ensures [own_name_only] result ==> hasPrefix(expr, "%" + f.fn + "(")
+//@   ensures [own_calls_supported] len(expr) >= 2 && hasPrefix(expr, "%") && hasSuffix(expr, "%") && matches(substr(expr, 1, len(expr) - 2), regexSimpleFn)
+//@        && substr(expr, 1, indexOf(expr, "(") - 1) == f.fn ==> result
 //@ func (FactoryUnexpectedFunction).Create
 //@   property C03 C11 C15
 //@   ensures [always_rejected] result.1 != nil
